@@ -63,7 +63,8 @@ class ConstraintUniqueModel(ConstraintModel):
         return ret
     
     def _add_list_elems(self, unique_l, l : FieldArrayModel):
-        for f in l.field_l:
+        # Only the elements within the current size are part of the list
+        for f in l.field_l[:int(l.size.get_val())]:
             unique_l.append(ExprFieldRefModel(f))
         
     def get_nodes(self, node_l):
